@@ -265,10 +265,18 @@ fn check_output(out: &[u8], what: &str, origin: Origin, expect_glyphs: Option<u1
         2..=3 => "odd-length-tables:2-3",
         _ => "odd-length-tables:4+",
     });
-    // flavour against outlines (recommendation in the spec, recorded only)
+    // flavour against outlines: "OpenType fonts containing CFF data (version 1 or 2) should use
+    // 'OTTO'", and CFF loaders (FreeType's cff_face_init) refuse any other sfnt version; every
+    // writer of allsorts selects CFF_MAGIC from the presence of the table
     let has = |t: &[u8; 4]| crep.tables.contains_key(t);
-    if (has(b"CFF ") || has(b"CFF2")) && crep.flavour != 0x4F54_544F {
-        rec.class("note:cff-outlines-without-OTTO-flavour");
+    if (has(b"CFF ") || has(b"CFF2")) && !has(b"glyf") {
+        rec.class("flavour:cff-outlines");
+        if crep.flavour != 0x4F54_544F {
+            return Err(fail(
+                "container:cff-outlines-without-OTTO-version",
+                format!("{}: the file has a {} table and no glyf table but sfntVersion 0x{:08X}", what, if has(b"CFF ") { "CFF" } else { "CFF2" }, crep.flavour),
+            ));
+        }
     }
     let charstrings = crep.tables.get(b"CFF ").map(|c| c.len() < 300_000).unwrap_or(true);
     let trep = validate_tables(&crep.tables, Opts { exact_sizes: origin != Origin::WholeFont, charstrings });
